@@ -46,7 +46,7 @@ IMPORT_PATHS_STR = ["a.css", "./a/b.wxss", "../common/x y.css", "a*/b.css", "100
 IMPORT_PATHS_URL = ["a.css", "./a/b.wxss", "a*/b.css", "é.css", "a%20b.css", "x\\)y.css", "http://h/p.css?q=1",
                     "100%.css", "a+b.css"]
 MEDIA_TYPES = ["screen", "print", "all"]
-LAYER_NAMES = ["base", "theme", "utils", "a", "reset"]
+LAYER_NAMES = ["base", "theme", "utils", "a", "reset", "\U0001F600ui", "é中", "x\U00010000"]   # (astral and multi-byte names: the wrappers replayed into the low-priority output count in UTF-16 units)
 COMMENT_BODIES = ["", "c", " comment ", "*", "**", "/", " a { b: c } ", "é中\U0001F600", "multi\nline",
                   " .cls 1rpx @import ", "/*", " ; ", "}", "\\", "'", '"']
 WS = [" ", " ", " ", "  ", "\n", "\n  ", "\t", "\r\n", "\n\n", " \n\t", "\f", "\r"]
@@ -523,7 +523,7 @@ class Gen:
             return kw("layer") + name + o() + self.rule_block(depth + 1)
         if k < 14 and nest:
             cond = self.pick(["(min-width: 400px)", "(min-width: " + self.rpx() + ")", "card (inline-size > 30em)", "style(--x: y)",
-                              "sidebar (width >= " + self.rpx() + ")", "(width > 1px) and (height > 1px)"])
+                              "sidebar (width >= " + self.rpx() + ")", "(width > 1px) and (height > 1px)", "\U0001F600c (min-width: 1px)", "é (width > 2px)"])
             return kw("container") + s() + cond + o() + self.rule_block(depth + 1)
         if k < 16 and nest:
             k2 = self.r.below(4)
@@ -581,9 +581,10 @@ class Gen:
         if k < 5:
             src = self.string(self.pick(IMPORT_PATHS_STR))
         elif k < 8:
-            src = "url(" + self.pick(IMPORT_PATHS_URL) + ")"
+            src = self.pick(["url(", "url(", "URL(", "Url("]) + self.pick(IMPORT_PATHS_URL) + ")"
         else:
-            src = "url(" + self.string(self.pick(IMPORT_PATHS_STR)) + ")"
+            # (the name of the url function is ASCII case-insensitive, with an unquoted and with a quoted path)
+            src = self.pick(["url(", "url(", "URL(", "Url(", "uRL( "]) + self.string(self.pick(IMPORT_PATHS_STR)) + ")"
         t = src
         if self.chance(1, 3):
             t += s() + self.pick(["layer", "layer(" + self.pick(LAYER_NAMES) + ")", "layer(" + self.pick(LAYER_NAMES) + ")",
